@@ -72,7 +72,7 @@ func runLawCase(r *rep.Reporter, c *rep.Case, ci int) {
 			c.Violation("law/is-temporary-or-unspec/"+kind+"/outermost="+ch.markerKind(), fmt.Sprintf("IsTemporaryOrUnspec = %v for chain %s", exterrors.IsTemporaryOrUnspec(err), ch.shape()), ob)
 		}
 		// the fields the reply conversions read
-		if ch.Annotated {
+		if ch.Annotated && !ch.BareGoSMTP {
 			f := exterrors.Fields(err)
 			fc, _ := f["smtp_code"].(int)
 			fe, _ := f["smtp_enchcode"].(exterrors.EnhancedCode)
